@@ -16,8 +16,8 @@ open EphVerif.Gen.C02 EphVerif.Ttl EphVerif.MTtl EphVerif.C03Spec EphVerif.C02L 
 
 /-- every record an accepted manifest writes ends no later than the manifest and at most
     max_ttl after the arrival -/
-theorem writes_bounded (cfg : Cfg) (w : Window cfg) (off now E : Int) (p : Path) (ws : List Write)
-    (h : writes cfg off now E p = some ws) :
+theorem writes_bounded (cfg : Cfg) (w : Window cfg) (off now E prev : Int) (p : Path) (ws : List Write)
+    (h : writes cfg off now E prev p = some ws) :
     ∀ x ∈ ws, x.wall off ≤ E ∧ x.wall off ≤ (now + off) + cfg.max_manifest_ttl * 1000000000 := by
   have hmin := w.min_pos
   cases p with
@@ -79,28 +79,28 @@ theorem writes_bounded (cfg : Cfg) (w : Window cfg) (off now E : Int) (p : Path)
 /-- **C03.derived** for every configuration, manifest expiry `E`, arrival path, time and clock
     offset: if the manifest is accepted, every derived deadline — key-share record, provider
     contact, replica chunk, pending fetch — is, as wall time, `≤ E` and `≤ t + max_ttl`. -/
-theorem derived (cfg0 : Cfg) (off now E : Int) (p : Path) (ws : List Write)
-    (h : writes (effective cfg0) off now E p = some ws) :
+theorem derived (cfg0 : Cfg) (off now E prev : Int) (p : Path) (ws : List Write)
+    (h : writes (effective cfg0) off now E prev p = some ws) :
     ∀ x ∈ ws, NotAfterManifest E (x.wall off) ∧ Capped (now + off) (effective cfg0).max_manifest_ttl (x.wall off) := by
   unfold NotAfterManifest Capped C03Spec.nsPerS
-  exact writes_bounded (effective cfg0) (window cfg0) off now E p ws h
+  exact writes_bounded (effective cfg0) (window cfg0) off now E prev p ws h
 
 /-- **C03.cap** a far-future expiry never extends a lifetime beyond the maximum TTL: whatever `E`
     is, nothing created from the manifest lives longer than max_ttl ≤ 24 h from its arrival -/
-theorem cap (cfg0 : Cfg) (off now E : Int) (p : Path) (ws : List Write)
-    (h : writes (effective cfg0) off now E p = some ws) :
+theorem cap (cfg0 : Cfg) (off now E prev : Int) (p : Path) (ws : List Write)
+    (h : writes (effective cfg0) off now E prev p = some ws) :
     ∀ x ∈ ws, x.wall off - (now + off) ≤ (effective cfg0).max_manifest_ttl * 1000000000 ∧
       x.wall off - (now + off) ≤ 86400 * 1000000000 := by
   intro x hx
-  have b := writes_bounded (effective cfg0) (window cfg0) off now E p ws h x hx
+  have b := writes_bounded (effective cfg0) (window cfg0) off now E prev p ws h x hx
   have hday : (effective cfg0).max_manifest_ttl ≤ 86400 := (window cfg0).max_le_day
   omega
 
 /-- **C03.reject** a manifest that is expired (`E ≤ t`) or has less than min_ttl left is rejected on
     every path … -/
-theorem reject (cfg0 : Cfg) (off now E : Int) (p : Path)
+theorem reject (cfg0 : Cfg) (off now E prev : Int) (p : Path)
     (h : Rejectable E (now + off) (effective cfg0).min_manifest_ttl) :
-    writes (effective cfg0) off now E p = none := by
+    writes (effective cfg0) off now E prev p = none := by
   unfold Rejectable C03Spec.nsPerS at h
   have hn := manifest_ttl_none (effective cfg0) (window cfg0) E (now + off) h
   cases p <;> simp only [writes, ingest_ttl_source, receive_ttl_source, announce_ttl_source, hn]
@@ -110,12 +110,12 @@ theorem reject_state (cfg0 : Cfg) (off now E : Int) (p : Path) (c : ChunkSt)
     (h : Rejectable E (now + off) (effective cfg0).min_manifest_ttl) :
     arrive (effective cfg0) off now E p c = (c, false) := by
   unfold arrive
-  rw [reject cfg0 off now E p h]
+  rw [reject cfg0 off now E _ p h]
 
 /-- a replica that fails decryption / the hash check changes nothing either -/
 theorem reject_bad_replica (cfg0 : Cfg) (off now E : Int) (c : ChunkSt) :
     arrive (effective cfg0) off now E (.receive false) c = (c, false) := by
-  have hw : writes (effective cfg0) off now E (.receive false) = none := by
+  have hw : writes (effective cfg0) off now E (c.shard.getD 0) (.receive false) = none := by
     simp only [writes]
     split <;> simp
   unfold arrive
@@ -157,14 +157,14 @@ theorem pending_dispatch_only_before (off now : Int) (want : Nat) (c : ChunkSt)
 /-- **C03.pending** (end to end) the pending fetch created by an accepted announce of a manifest
     expiring at `E` (arriving at a wall time after the epoch): at every later scheduler pass at or
     after `E` no fetch request is dispatched for it and the entry is gone after that pass. -/
-theorem pending (cfg0 : Cfg) (off now0 E : Int) (peer : String) (attl : Int) (endpoint : Bool) (ws : List Write)
+theorem pending (cfg0 : Cfg) (off now0 E prev : Int) (peer : String) (attl : Int) (endpoint : Bool) (ws : List Write)
     (hwall : 0 < now0 + off)
-    (hacc : writes (effective cfg0) off now0 E (.announce peer attl endpoint true false) = some ws)
+    (hacc : writes (effective cfg0) off now0 E prev (.announce peer attl endpoint true false) = some ws)
     (d : Int) (hd : (⟨.pending, d⟩ : Write) ∈ ws)
     (now : Int) (want attempts : Nat) (c : ChunkSt) (hc : c.pending = some ⟨d, attempts, E⟩)
     (hlate : E ≤ now + off) :
     dispatched off now want c = 0 ∧ (processPending (effective cfg0) off now want c).pending = none := by
-  have b := writes_bounded (effective cfg0) (window cfg0) off now0 E _ ws hacc _ hd
+  have b := writes_bounded (effective cfg0) (window cfg0) off now0 E prev _ ws hacc _ hd
   simp only [Write.wall] at b
   -- the recorded expiry is the generated `pending_manifest_expires`, which is positive here
   have hpos : 0 < d := by
@@ -187,13 +187,15 @@ theorem pending (cfg0 : Cfg) (off now0 E : Int) (peer : String) (attl : Int) (en
 structure Arrival where
   now : Int
   E : Int
+  /-- deadline of the key-share record already cached for the chunk (anything) -/
+  prev : Int
   path : Path
 
 /-- every record written along a history, stamped with the arrival that wrote it -/
 def history (cfg : Cfg) (off : Int) : List Arrival → List (Arrival × Write)
   | [] => []
   | a :: rest =>
-    (match writes cfg off a.now a.E a.path with
+    (match writes cfg off a.now a.E a.prev a.path with
      | none => []
      | some ws => ws.map fun w => (a, w)) ++ history cfg off rest
 
@@ -214,7 +216,7 @@ theorem derived_history (cfg0 : Cfg) (off : Int) (as : List Arrival) :
       · rename_i ws hw
         simp only [List.mem_map] at h
         obtain ⟨w, hwm, rfl⟩ := h
-        exact derived cfg0 off a.now a.E a.path ws hw w hwm
+        exact derived cfg0 off a.now a.E a.prev a.path ws hw w hwm
     · exact ih aw h
 
 /-! ### Non-vacuity -/
@@ -222,18 +224,21 @@ theorem derived_history (cfg0 : Cfg) (off : Int) (as : List Arrival) :
 def exCfg : Cfg := { default_chunk_ttl := 60, min_manifest_ttl := 30, max_manifest_ttl := 100 }
 
 /-- a manifest with 50.7 s left is accepted and its key shares expire 50 s later, before the manifest -/
-example : writes (effective exCfg) 1000 5000 (5000 + 1000 + 50700000000) .ingest = some [⟨.shard, 5000 + 50000000000⟩] := by decide
+example : writes (effective exCfg) 1000 5000 (5000 + 1000 + 50700000000) 0 .ingest = some [⟨.shard, 5000 + 50000000000⟩] := by decide
 /-- 10 years ahead: every lifetime is capped at max_ttl = 100 s, the pending fetch included -/
-example : writes (effective exCfg) 1000 5000 (5000 + 1000 + 315360000000000000) (.announce "p1" 500 true true false)
+example : writes (effective exCfg) 1000 5000 (5000 + 1000 + 315360000000000000) 0 (.announce "p1" 500 true true false)
     = some [⟨.shard, 5000 + 100000000000⟩, ⟨.contact "p1", 5000 + 100000000000⟩, ⟨.pending, 5000 + 1000 + 100000000000⟩] := by decide
 /-- an announced TTL larger than the manifest's remaining life is cut down to it -/
-example : writes (effective exCfg) 0 0 45000000000 (.announce "p1" 90 true false false)
+example : writes (effective exCfg) 0 0 45000000000 0 (.announce "p1" 90 true false false)
     = some [⟨.shard, 45000000000⟩, ⟨.contact "p1", 45000000000⟩] := by decide
 /-- 29.9 s left < min_ttl = 30 s: rejected; expired: rejected -/
-example : writes (effective exCfg) 0 0 29900000000 .ingest = none := by decide
-example : writes (effective exCfg) 0 7 7 (.receive true) = none := by decide
+example : writes (effective exCfg) 0 0 29900000000 0 .ingest = none := by decide
+example : writes (effective exCfg) 0 7 7 0 (.receive true) = none := by decide
+/-- a longer-lived record (90 s) for the same chunk id is already cached: the shorter manifest's shares still
+    get the shorter deadline -/
+example : writes (effective exCfg) 0 0 31000000000 90000000000 .ingest = some [⟨.shard, 31000000000⟩] := by decide
 /-- a replica is stored with the manifest-derived TTL -/
-example : writes (effective exCfg) 0 0 31000000000 (.receive true)
+example : writes (effective exCfg) 0 0 31000000000 0 (.receive true)
     = some [⟨.shard, 31000000000⟩, ⟨.contact "self", 31000000000⟩, ⟨.chunk, 31000000000⟩] := by decide
 /-- the scheduler drops the entry exactly at its expiry and dispatches before it -/
 example : (processPending (effective exCfg) 0 99 3 { pending := some ⟨100, 1, 100⟩ }).pending = some ⟨100, 4, 100⟩ := by decide
